@@ -20,6 +20,9 @@ class Abort(BaseException):
 
 METHODS = ['exists', 'is_file', 'is_dir', 'get_size', 'read_text', 'read_binary', 'declare_read', 'list_dir', 'walk',
            'build_file', 'subbuild']
+# queries of the owner's own output and its directory (build_file builders only): what they answer changes
+# while a failed call is being rolled back
+OWN_METHODS = ['is_dir:own', 'list_dir:own', 'exists:own/out', 'is_file:own/out']
 KINDS = ['root', 'sb', 'bf']
 BUILD = 'n'
 
@@ -28,7 +31,7 @@ def tasks(tier, seed):
     out = [{'tier': tier, 'kind': 'sequential'}]
     for K in KINDS:
         for mode in ('return', 'raise'):
-            for M in METHODS:
+            for M in METHODS + (OWN_METHODS if K == 'bf' else []):
                 out.append({'tier': tier, 'kind': 'race', 'K': K, 'mode': mode, 'M': M})
     return out
 
@@ -52,6 +55,10 @@ class Run:
     def call(self, b, M, log):
         """The straggler's call of method M on builder b."""
         sb = self.sb
+        if ':' in M:
+            meth, rel = M.split(':')
+            r = getattr(b, meth)(sb.p(rel))
+            return sorted(r) if isinstance(r, list) else r
         if M == 'is_dir':
             return b.is_dir(sb.p('obsd'))
         if M in ('exists', 'is_file', 'get_size', 'declare_read'):
@@ -78,6 +85,8 @@ class Run:
 
     def mutate_observed(self, M):
         sb = self.sb
+        if ':' in M:
+            return False
         if M == 'build_file':
             if os.path.exists(sb.p('late')):
                 os.remove(sb.p('late'))
@@ -223,6 +232,8 @@ def judge(K, mode, M, o, attach):
         out.append(('fence.returned_normally_after_close', facts))
     if st is None:
         return [('fence.harness', {'K': K, 'M': M, 'why': 'straggler never ran'})]
+    if st[0] == 'FileNotFoundError' and M == 'list_dir:own':
+        st = ['ok', 'FileNotFoundError']      # the directory of the output legitimately does not exist (yet / any more)
     if st[0] not in ('ok', 'RuntimeError'):
         # queries on obs may legitimately raise OSError subclasses? obs exists: they may not
         out.append(('fence.wrong_exception', dict(facts, exc=st[0])))
@@ -239,12 +250,16 @@ def judge(K, mode, M, o, attach):
             out.append(('fence.effect_outlives_rollback', dict(facts, straggler=st[0])))
     if attach is not None and K != 'root' and o['build'][0] == 'ok':
         plain, mutated = attach
-        if plain is None or mutated is None:
+        if plain is None:
             return out
         reinvoked_plain = 'outer_invoked' in plain
-        reinvoked_mut = 'outer_invoked' in mutated
         if reinvoked_plain:
             out.append(('fence.record_not_reusable', dict(facts, straggler=st[0])))
+        if mutated is None:
+            return out
+        reinvoked_mut = 'outer_invoked' in mutated
+        if reinvoked_plain:
+            pass
         elif st[0] == 'ok' and not reinvoked_mut:
             out.append(('fence.completed_operation_not_recorded', facts))
         elif st[0] == 'RuntimeError' and reinvoked_mut:
